@@ -1215,6 +1215,16 @@ pub fn execute(cfg: &SCfg, prefix: &[u16], suppress_cancel: Option<u32>) -> Exec
             tokio::time::advance(Duration::from_millis(cfg.start_age_ms as u64)).await;
             w.log.push(Rec::N("time", vec![w.log.now_ns()]));
         }
+        if cfg.start_age_ms < 0 {
+            // the first request arrives on the new connection and is in flight (its handler
+            // started) while the connection grows old: the timer queue is old AND holds a live timer
+            w.apply(Ev::PollStream);
+            w.apply(Ev::Deliver(0));
+            w.apply(Ev::PollStream);
+            w.apply(Ev::PollHandler(0));
+            tokio::time::advance(Duration::from_millis((-cfg.start_age_ms) as u64)).await;
+            w.log.push(Rec::N("time", vec![w.log.now_ns()]));
+        }
         if cfg.burst {
             for k in 0..cfg.reqs.len() {
                 if cfg.reqs[k].cancel || w.reuse_ok(&w.st.borrow(), cfg.reqs[k].id) {
